@@ -173,6 +173,13 @@ func (w *World) exchange(p *pfcpx.Peer, kind string, req map[string]interface{},
 
 	cmds0 := w.Bess.Snapshot().Cmds
 	logMark := w.dropLogCount()
+	rpcs0 := 0
+
+	if w.P4 != nil {
+		rpcs0 = w.P4.RpcCount()
+		w.armP4Fault()
+	}
+
 	_ = p.SendRaw(raw)
 
 	got := false
@@ -213,6 +220,15 @@ func (w *World) exchange(p *pfcpx.Peer, kind string, req map[string]interface{},
 	}
 
 	ev := map[string]interface{}{"ev": "req", "kind": kind, "peer": p.Name, "req": req, "resps": resps}
+	if w.P4 != nil {
+		w.LastRpcs = w.P4.RpcCount() - rpcs0
+		ev["rpcs"] = w.LastRpcs
+
+		if f := w.disarmP4Fault(); f != nil {
+			ev["fault"] = f
+		}
+	}
+
 	w.dpObs(ev)
 
 	var programmedAt time.Time
